@@ -58,3 +58,42 @@ package avfs
 //@   ensures[C16] err != nil ==> sum == nil
 //@   ensures[C16] called(copyBufPool) ==> arg(copyBufPool, 1) == result(vfs.OpenFile, 0)
 //@   ensures[C16] called(vfs.OpenFile) && !failed(vfs.OpenFile) ==> called(f.Close)
+
+// ---- errors.go (C17) -------------------------------------------------------------------------
+
+//@ func (*Errors).SetOSType
+//@   ensures[C17] e.BadFileDesc != nil && e.DirNotEmpty != nil && e.FileExists != nil && e.InvalidArgument != nil && e.IsADirectory != nil && e.NoSuchDir != nil
+//@   ensures[C17] e.NoSuchFile != nil && e.NotADirectory != nil && e.OpNotPermitted != nil && e.PermDenied != nil && e.TooManySymlinks != nil
+//@   ensures[C17] osType == OsWindows ==> e.BadFileDesc is WindowsError && e.DirNotEmpty is WindowsError && e.FileExists is WindowsError && e.InvalidArgument is WindowsError && e.IsADirectory is WindowsError
+//@   ensures[C17] osType == OsWindows ==> e.NoSuchDir is WindowsError && e.NoSuchFile is WindowsError && e.NotADirectory is WindowsError && e.OpNotPermitted is WindowsError && e.PermDenied is WindowsError
+//@   ensures[C17] osType != OsWindows ==> e.BadFileDesc is LinuxError && e.DirNotEmpty is LinuxError && e.FileExists is LinuxError && e.InvalidArgument is LinuxError && e.IsADirectory is LinuxError
+//@   ensures[C17] osType != OsWindows ==> e.NoSuchDir is LinuxError && e.NoSuchFile is LinuxError && e.NotADirectory is LinuxError && e.OpNotPermitted is LinuxError && e.PermDenied is LinuxError && e.TooManySymlinks is LinuxError
+//@   ensures[C17] osType != OsWindows ==> e.PermDenied == ErrPermDenied && e.OpNotPermitted == ErrOpNotPermitted && e.FileExists == ErrFileExists && e.DirNotEmpty == ErrDirNotEmpty && e.NoSuchFile == ErrNoSuchFileOrDir && e.NoSuchDir == ErrNoSuchFileOrDir
+//@   ensures[C17] osType != OsWindows ==> e.NotADirectory == ErrNotADirectory && e.IsADirectory == ErrIsADirectory && e.InvalidArgument == ErrInvalidArgument && e.BadFileDesc == ErrBadFileDesc && e.TooManySymlinks == ErrTooManySymlinks
+//@   ensures[C17] osType == OsWindows ==> e.PermDenied == ErrWinAccessDenied && e.FileExists == ErrWinFileExists && e.DirNotEmpty == ErrWinDirNotEmpty && e.NoSuchFile == ErrWinFileNotFound && e.NoSuchDir == ErrWinPathNotFound && e.NotADirectory == ErrWinPathNotFound
+//@   modifies e.BadFileDesc, e.DirNotEmpty, e.FileExists, e.InvalidArgument, e.IsADirectory, e.NoSuchDir, e.NoSuchFile, e.NotADirectory, e.OpNotPermitted, e.PermDenied, e.TooManySymlinks
+
+//@ func (LinuxError).Is
+//@   ensures[C17] target == fs.ErrPermission ==> r0 == (i == ErrPermDenied || i == ErrOpNotPermitted)
+//@   ensures[C17] target == fs.ErrExist ==> r0 == (i == ErrFileExists || i == ErrDirNotEmpty)
+//@   ensures[C17] target == fs.ErrNotExist ==> r0 == (i == ErrNoSuchFileOrDir)
+//@   ensures[C17] target != fs.ErrPermission && target != fs.ErrExist && target != fs.ErrNotExist ==> !r0
+//@   modifies nothing
+
+//@ func (WindowsError).Is
+//@   ensures[C17] target == fs.ErrPermission ==> r0 == (i == ErrWinAccessDenied)
+//@   ensures[C17] target == fs.ErrExist ==> r0 == (i == ErrWinAlreadyExists || i == ErrWinDirNotEmpty || i == ErrWinFileExists)
+//@   ensures[C17] target == fs.ErrNotExist ==> r0 == (i == ErrWinFileNotFound || i == ErrWinBadNetPath || i == ErrWinPathNotFound)
+//@   ensures[C17] target != fs.ErrPermission && target != fs.ErrExist && target != fs.ErrNotExist ==> !r0
+//@   modifies nothing
+
+//@ func (*OSTypeFn).OSType
+//@   ensures[C17] r0 == osf.osType
+//@   modifies nothing
+//@ func (*OSTypeFn).PathSeparator
+//@   ensures[C17,C13] r0 == osf.pathSeparator
+//@   modifies nothing
+//@ func (*FeaturesFn).HasFeature
+//@   mode bv
+//@   ensures[C17] r0 == (ftf.features&feature == feature)
+//@   modifies nothing
